@@ -39,6 +39,12 @@ CHECKS.update({
    text="After every generated operation the real cache is walked from its root (child keys, parent links, acyclicity, unique ids, id map == reachable ids, get_path/get_oid inverse) and every getter is compared with the dictionary model over the whole (small) path/id universe, for case-sensitive and case-insensitive conventions.",
    note="Trusted: the dictionary model (evict id owner, evict path owner, id-less ancestors). The 'id owned by an ancestor of the target path' family is an open finding (KF-19) and excluded by construction."),
 })
+CHECKS.update({
+ "C18": dict(engine="runnable", category="exploration", design_ref="2/C18",
+   technique="property-based testing against a reference backoff law (scripted work functions, recorded sleep requests); generated start/stop/wait schedules with harness-owned placement of stop(); generated notification lists with failing handlers compared with the delivery log",
+   text="Backoff arithmetic is decided single-threaded by replacing interruptable_sleep with a recorder and comparing every requested wait with min(max, min*mult^(k-1)); the stop/start protocol runs real threads but the harness blocks do() so that it owns where stop() lands; notification delivery is compared with the raised list, in order, once each.",
+   note="Trusted: the reference law as transcribed from the statement. Real-thread parts sample OS scheduling apart from the harness-owned stop placement; a wall-clock wait that runs out is reported as inconclusive, never as a violation."),
+})
 NOT_YET = {}
 
 def main():
